@@ -15,7 +15,8 @@ import traceback
 
 
 class _Tracer(object):
-    def __init__(self, data_paths, crash_at):
+    def __init__(self, data_paths, crash_at, fault=None):
+        self.fault = fault       # (index of the mutating call, errno name): that call raises OSError instead
         self.events = []
         self.data_paths = [os.path.abspath(p) for p in data_paths]
         self.crash_at = crash_at
@@ -36,6 +37,12 @@ class _Tracer(object):
         """called immediately before a mutating call is performed"""
         if self.crash_at is not None and self.n_mut == self.crash_at:
             os._exit(137)
+        if self.fault is not None and self.n_mut == self.fault[0]:
+            import errno
+            self.n_mut += 1
+            self.events.append(list(ev) + ['FAULT:' + self.fault[1]])
+            code = getattr(errno, self.fault[1])
+            raise OSError(code, os.strerror(code))
         self.n_mut += 1
         self.events.append(ev)
 
@@ -199,7 +206,7 @@ def install(tracer):
             setattr(P, k, over[k])
 
 
-def run_traced(fn, data_paths, tmpdir, crash_at=None):
+def run_traced(fn, data_paths, tmpdir, crash_at=None, fault=None):
     """fork; in the child: TMPDIR=tmpdir, tracer installed, `fn()` (returns a JSON-able dict).
     Returns dict: exit ('ok' | 'killed' | 'child-error'), result, events, snapshots."""
     r, w = os.pipe()
@@ -212,7 +219,7 @@ def run_traced(fn, data_paths, tmpdir, crash_at=None):
             os.close(r)
             os.environ['TMPDIR'] = tmpdir
             tempfile.tempdir = None
-            tracer = _Tracer(data_paths, crash_at)
+            tracer = _Tracer(data_paths, crash_at, fault)
             install(tracer)
             res = fn()
             # data files never opened for appending: snapshot at the end
